@@ -848,6 +848,7 @@ func genWhole(r *rand.Rand, n int, linksOnly bool, emit func(Op)) {
 		op["doc"], op["hook"], op["steps"], op["widths"], op["labels"], op["checknumbers"] = string(b), hook, steps, widths, g.labels, g.clean
 		if g.supers {
 			op["labels"] = []any{}
+			op["supers"] = true
 		}
 		emit(op)
 	}
